@@ -94,7 +94,7 @@ Reset ==
            /\ hist' = Append(hist, [call |-> "reset", target |-> NullTarget, out |-> "ok", done |-> e2.done,
                                     now |-> e2.now, nlv |-> Deposit, pre |-> NaN, post |-> NaN, trades |-> <<>>,
                                     interest |-> Zero, comm |-> Zero, exec |-> NullTarget, pos |-> s1.st.pos,
-                                    stamp |-> NoT, entries |-> 0])
+                                    stamp |-> NoT, entries |-> 0, snap |-> <<>>])
     /\ UNCHANGED cfg
 
 \* independent replay: NLV from deposit, what was paid, fees, interest and the current quotes only
@@ -122,7 +122,7 @@ StepF(tgt) ==
           ret |-> [call |-> "step", out |-> "ended", done |-> TRUE],
           rec |-> [call |-> "step", target |-> tgt, out |-> "ended", done |-> TRUE, now |-> env.now,
                    nlv |-> NaN, pre |-> NaN, post |-> NaN, trades |-> <<>>, interest |-> Zero,
-                   comm |-> Zero, exec |-> NullTarget, pos |-> st.pos, stamp |-> NoT, entries |-> Len(track)]]
+                   comm |-> Zero, exec |-> NullTarget, pos |-> st.pos, stamp |-> NoT, entries |-> Len(track), snap |-> <<>>]]
     ELSE
     LET q1  == <<tgt>> \o env.queue
         due == LastOf(q1)
@@ -167,7 +167,10 @@ StepF(tgt) ==
          rec |-> [call |-> "step", target |-> tgt, out |-> out, done |-> dn, now |-> e3.now,
                   nlv |-> v.nlv, pre |-> IF track1 = <<>> THEN NaN ELSE LastOf(track1).pre, post |-> r.post,
                   trades |-> r.trades, interest |-> r.interest, comm |-> r.comm, exec |-> req.alloc,
-                  pos |-> v.st.pos, stamp |-> IF executed THEN now1 ELSE NoT, entries |-> Len(track1)]]
+                  pos |-> v.st.pos, stamp |-> IF executed THEN now1 ELSE NoT, entries |-> Len(track1),
+                  snap |-> IF executed THEN [prepos |-> r.prest.pos, precash |-> r.prest.cash, premrg |-> r.prest.mrg,
+                                             postpos |-> r.postst.pos, postcash |-> r.postst.cash, postmrg |-> r.postst.mrg]
+                           ELSE <<>>]]
 
 Step(tgt) ==
     /\ env.k > 0
